@@ -18,7 +18,10 @@
     [PReply p] (p <> fpath) threads.
     Time: [now] advanced by [Tick]; the timer's fire step is enabled only when now >= armed_at + timeout (M6).
     The model is tied to the real code by lock-step replay (bin/check C04).
-    Statements only; proofs in Future/FutInv*.v, Future/FutProofs.v, Future/FutFwd.v; notions in Future/FutSpec.v. *)
+    Statements only; proofs in Future/FutInv*.v, Future/FutProofs.v, Future/FutFwd.v; notions in Future/FutSpec.v.
+    ANY NUMBER of concurrent Asks sharing the System's tables, with the tables at their own granularity (Store / Delete /
+    Load / futureLock sections as separate steps), several Asks per asker, kill clean-ups over many futures:
+    Properties/C04_system.v (model Future/SysModel.v). *)
 From Coq Require Import List NArith Bool.
 From Vivid Require Import Future.FutModel Future.FutSpec Future.FutInvDef Future.FutInv Future.FutProofs Future.FutFwd
   Future.FutRun Future.FutRunProofs.
